@@ -17,9 +17,12 @@ RULE = ("four kinds of cases. (4) msg-history: 3-9 blocks on ONE keeper in which
         "MsgDelegateFeedConsent pass ValidateBasic and the msg server at the block's height, then oracle.EndBlocker; validator / "
         "feeder / operator / delegate fields are spelled lower-case (52 %), ALL-UPPER-CASE bech32 (45 %) or mixed-case (3 %, rejected); "
         "own account / delegated feeder / stranger senders, copy-cat and upper-case-hashed commitments, replayed reveals, "
-        "non-whitelisted or duplicate pairs, rates at the 315-bit limit, optional slash window; observed per block: accept flag of "
+        "non-whitelisted pairs, vote strings that name ONE pair more than once (7 % of the commitments: right after its first "
+        "occurrence / with another pair in between / three times; same rate, another rate or an abstention), rates at the 315-bit "
+        "limit, optional slash window; observed per block: accept flag of "
         "every message, staking answers read by the msg server, rates, events, Votes store by key, Prevotes store; the model "
-        "predicts all of it, the checker Pb_mhist tracks the votes cast BY VALIDATOR IDENTITY from the accept flags. non-trivial "
+        "predicts all of it, the checker Pb_mhist tracks the votes cast from the accept flags keyed by (VALIDATOR IDENTITY, pair) — "
+        "one rate per validator and pair, so a validator's power counts once per pair and voters are distinct validators. non-trivial "
         "(msg-history) = has a period end with accepted votes. (3) params: generated parameter values (valid / invalid in one or several fields) are "
         "given to the real Params.Validate and to MsgEditOracleParams (sudo sender, full test app); the acceptance must "
         "equal Spec.params_valid, a rejected edit must leave the stored params unchanged. (1) single: one real oracle.EndBlocker call on the x/oracle keeper fixture after a generated staking situation "
@@ -206,6 +209,13 @@ def _msg_flags(rec):
         for m, a in zip(st["msgs"] or [], so["acc"]):
             if m["vsp"] == "x" or m["fsp"] == "x":
                 fl.add("mixed-case-field")
+            ps = [t["p"] for t in m.get("t") or []]
+            if m["kind"] == "vote" and len(set(ps)) < len(ps):
+                adj = any(x == y for x, y in zip(ps, ps[1:]))
+                apart = any(ps[i] == ps[j] for i in range(len(ps)) for j in range(i + 2, len(ps)) if any(q != ps[i] for q in ps[i + 1:j]))
+                three = any(ps.count(q) >= 3 for q in ps)
+                form = "three-times" if three else ("apart" if apart and not adj else "adjacent" if adj and not apart else "mixed")
+                fl.add("repeated-pair-vote:%s:%s" % (form, "ACCEPTED" if a else "refused"))
             if not a:
                 fl.add("refused-%s" % m["kind"])
                 continue
@@ -353,6 +363,7 @@ def signature(rec):
     if _is_msg(rec):
         fl = _msg_flags(rec)
         return {"kind": "msg-history", "upper_case_voter": "accepted-vote-upper-validator" in fl,
+                "repeated_pair_accepted": any(f.startswith("repeated-pair-vote") and f.endswith("ACCEPTED") for f in fl),
                 "quorum": "period-with-quorum" in fl, "panic": "panic" in fl}
     return {"kind": "panic" if obs["panic"] else "price-update",
             "period_end": _period_end(inp),
@@ -506,7 +517,10 @@ MANIFEST = {
                  "C10_msg_history_holds (every EndBlocker outcome satisfies the property w.r.t. the votes cast by validator identity "
                  "through accepted messages), C10_stored_voter_is_canonical, C10_rate_independent_of_spelling (accept flags and "
                  "published rates do not depend on the spelling of validator / feeder / operator / delegate fields), "
-                 "C10_raw_voter_string_refuted (a msg server storing the raw message string violates the property). The model is run against the real keeper "
+                 "C10_raw_voter_string_refuted (a msg server storing the raw message string violates the property), "
+                 "C10_one_vote_per_validator_and_pair (with the parser's all-pairs duplicate test the tally never sees two votes of one "
+                 "validator for one pair, whatever repeated-pair strings are sent), C10_adjacent_only_duplicate_check_refuted (a parser "
+                 "comparing only with the preceding tuple lets a validator be tallied twice). The model is run against the real keeper "
                  "(oracle.EndBlocker on the x/oracle fixture) on generated single calls, multi-period histories AND message-level histories (every vote through ValidateBasic + the real msg server, upper-case bech32 included) every run and the proved-sound checker "
                  "Pb is evaluated on the implementation's own output. C10_refuted_before_fix proves the pre-d9ae51e code "
                  "violates the property (abstention published as price)."),
